@@ -8,6 +8,7 @@ trap 'git -C /repo checkout -- . ; git -C /repo clean -fdq -- src tests 2>/dev/n
 cd /verif
 for id in "$@"; do
   echo "=== $id with $(basename $(dirname $P))/$(basename $P)"
-  ./check $id --tier ${TIER:-quick} 2>&1 | tail -8
-  echo "exit=$?"
+  ./check $id --tier ${TIER:-quick} > /tmp/seed_test.$$.log 2>&1; rc=$?
+  tail -8 /tmp/seed_test.$$.log; rm -f /tmp/seed_test.$$.log
+  echo "exit=$rc"
 done
